@@ -834,6 +834,58 @@ func (c *Ctx) c19Hub() {
 		}
 	}
 	r.Floor("C19/HUB", "channel fields of msghub.Hub", n, 1)
+	// "the message hub stops": in the hub's own loop the arm that receives from the shutdown
+	// context's Done channel leaves the loop — from that arm the select is not reached again. An
+	// arm that falls back into the loop spins on the closed channel for ever and never closes
+	// what the producers wait for
+	r.Rule("C19/HUB/stops", "in pkg/msghub every select arm that receives from a context's Done() channel does not reach that select again")
+	nStop := 0
+	for _, fn := range pkgFuncs(p, "pkg/msghub") {
+		fn := fn
+		eng.EachInstr(fn, func(in ssa.Instruction) {
+			sel, ok := in.(*ssa.Select)
+			if !ok {
+				return
+			}
+			for si, stt := range sel.States {
+				if stt.Dir != types.RecvOnly {
+					continue
+				}
+				dc, isCall := eng.StripConv(stt.Chan).(*ssa.Call)
+				if !isCall || !dc.Call.IsInvoke() || dc.Call.Method.Name() != "Done" {
+					continue
+				}
+				nStop++
+				cons := "done-arm@" + shortFn(fn)
+				// the edge on which the chosen index equals si
+				var start *ssa.BasicBlock
+				for _, b := range fn.Blocks {
+					for k := 0; k < len(b.Succs) && len(b.Succs) == 2; k++ {
+						rel, okR := eng.EdgeRel(b, k)
+						if !okR || rel.Op != token.EQL {
+							continue
+						}
+						ex, isEx := rel.X.(*ssa.Extract)
+						kk, isK := eng.ConstInt(rel.Y)
+						if isEx && isK && ex.Tuple == ssa.Value(sel) && ex.Index == 0 && int(kk) == si {
+							start = b.Succs[k]
+						}
+					}
+				}
+				if start == nil {
+					r.Undecided("C19/HUB/stops", cons, p.InstrPos(sel), "the branch taken for the Done arm was not found")
+					continue
+				}
+				again := (&eng.Search{Target: func(x ssa.Instruction) bool { return x == ssa.Instruction(sel) }}).FromBlockStart(start)
+				if again != nil {
+					r.Bad("C19/HUB/stops", cons, p.InstrPos(sel), "after the shutdown context is done the hub's loop comes back to this select: the Done channel stays ready, so the goroutine spins, never returns, and whatever its exit closes for the producers is never closed")
+				} else {
+					r.Ok("C19/HUB/stops", cons, p.InstrPos(sel), "the Done arm leaves the loop")
+				}
+			}
+		})
+	}
+	r.Floor("C19/HUB/stops", "Done arms in the hub's selects", nStop, 1)
 	// producers are released when the consumer is gone: after cancel nobody receives from the
 	// operation queue any more, and the producers are store listeners running in sessions that
 	// are still draining. A producer's send must therefore have a way out — a select arm on a
